@@ -50,27 +50,46 @@ class C11(Check):
             p = self.inst[cfg] = W.build(cfg)
         return p
 
-    def gen_plan(self, rng, tier):
-        cfgs = rng.sample(self.cfgs, rng.randint(2, 4))
-        probes = {}
-        for cfg in cfgs:
-            e = W.ENTRIES[cfg.partition('/')[0]]
-            p = self._inst(cfg)
-            ops = []
-            starts = sorted(p.options.start)
-            for t in rng.sample(e.texts, min(len(e.texts), 4)):
-                ops.append(['parse', t, rng.choice(starts)])
-            for _ in range(rng.randint(2, 5)):
-                st = rng.choice(starts)
-                ops.append(['parse', W.gen_text(rng, cfg, p, st), st])
-            if not e.postlex:
-                st = rng.choice(starts)
-                ops.append(['scan', ' '.join(rng.sample(e.texts, min(2, len(e.texts)))) + ' ' + W.gen_text(rng, cfg, p, st), st])
+    def _probes(self, rng, p, e, cfg_for_text):
+        ops = []
+        starts = sorted(p.options.start)
+        texts = list(e.texts)
+        for t in rng.sample(texts, min(len(texts), 4)):
+            ops.append(['parse', t, rng.choice(starts)])
+        for _ in range(rng.randint(3, 6)):
             st = rng.choice(starts)
-            ops.append(['interactive', rng.choice(e.texts), st, rng.randint(1, 6), rng.choice(['drop', 'resume'])])
-            probes[cfg] = ops
+            ops.append(['parse', cfg_for_text(st), st])
+        if not e.postlex:
+            st = rng.choice(starts)
+            ops.append(['scan', ' '.join([cfg_for_text(st), cfg_for_text(st)] + (rng.sample(texts, 1) if texts else [])), st])
+        st = rng.choice(starts)
+        ops.append(['interactive', rng.choice(texts) if texts and rng.random() < 0.5 else cfg_for_text(st), st, rng.randint(1, 6), rng.choice(['drop', 'resume'])])
+        return ops
+
+    def gen_plan(self, rng, tier):
+        from sim import persist, gramgen
+        from lark import Lark
+        cases = []
+        for i in range(rng.randint(2, 4)):
+            if rng.random() < 0.55:
+                # generated grammar: randomised serialisable features (see sim/gramgen.py)
+                g = gramgen.gen(rng)
+                p = Lark(g['grammar'], **g['options'])
+                e = W.Entry('gen', g['grammar'], g['options'], samples=g['samples'])
+                sg = W.SentenceGen(p, e)
+                spec = {'name': 'gen%d' % i, 'grammar': g['grammar'], 'options': g['options'], 'user': {}, 'input_kind': 'str'}
+                spec['probes'] = self._probes(rng, p, e, lambda st: sg.text(rng, st))
+            else:
+                cfg = rng.choice(self.cfgs)
+                if any(c['name'] == cfg for c in cases):
+                    continue
+                e = W.ENTRIES[cfg.partition('/')[0]]
+                p = self._inst(cfg)
+                spec = persist.spec_of(cfg)
+                spec['probes'] = self._probes(rng, p, e, lambda st: W.gen_text(rng, cfg, p, st))
+            cases.append(spec)
         hs = {k: rng.randrange(1, 1 << 31) for k in ('B', 'L1', 'L2', 'L3', 'D')}
-        return {'cfgs': cfgs, 'probes': probes, 'hashseeds': hs, 'gens': rng.choice([1, 2, 2, 3]), 'standalone': rng.random() < 0.8}
+        return {'cases': cases, 'hashseeds': hs, 'gens': rng.choice([1, 2, 2, 3]), 'standalone': rng.random() < 0.8}
 
     def execute(self, plan, forced=None):
         out = Outcome()
@@ -83,8 +102,9 @@ class C11(Check):
         return out
 
     def _pipeline(self, plan, d, out):
-        cfgs, hs, gens = plan['cfgs'], plan['hashseeds'], plan['gens']
-        base = {'kind': 'c11', 'dir': d, 'probes': plan['probes']}
+        cfgs, hs, gens = [c['name'] for c in plan['cases']], plan['hashseeds'], plan['gens']
+        probes_of = {c['name']: c['probes'] for c in plan['cases']}
+        base = {'kind': 'c11', 'dir': d, 'cases': plan['cases']}
 
         def run(name, steps):
             tr, err = nodes.run_node(dict(base, steps=steps), hs[name], cwd=d)
@@ -149,7 +169,7 @@ class C11(Check):
                     if got_cmp != want:
                         i = next((i for i, (a, b) in enumerate(zip(got_cmp, want)) if a != b), min(len(got_cmp), len(want)))
                         what = 'direct-vs-direct' if kind == 'built-direct' else kind
-                        out.violation = Violation('transcript-differs(%s)' % what, config=c, node=node_name, probe=plan['probes'][c][i] if i < len(plan['probes'][c]) else None,
+                        out.violation = Violation('transcript-differs(%s)' % what, config=c, node=node_name, probe=probes_of[c][i] if i < len(probes_of[c]) else None, grammar=next(x['grammar'] for x in plan['cases'] if x['name'] == c), options=next(x['options'] for x in plan['cases'] if x['name'] == c),
                                                   got=got_cmp[i] if i < len(got_cmp) else None, want=want[i] if i < len(want) else None,
                                                   hashseeds=hs)
                         return
@@ -158,20 +178,23 @@ class C11(Check):
 
     def shrink(self, plan, decisions, violation, fails):
         c = violation['detail'].get('config')
-        if c in plan['cfgs']:
-            q = dict(plan, cfgs=[c], probes={c: plan['probes'][c]})
+        case = next((x for x in plan['cases'] if x['name'] == c), None)
+        if case is not None:
+            q = dict(plan, cases=[case])
             if fails(q) is not None:
                 plan = q
-                pr = ddmin(plan['probes'][c], lambda ps: bool(ps) and fails(dict(plan, probes={c: ps})) is not None, max_tests=12)
-                plan = dict(plan, probes={c: pr})
+                pr = ddmin(case['probes'], lambda ps: bool(ps) and fails(dict(plan, cases=[dict(case, probes=ps)])) is not None, max_tests=12)
+                plan = dict(plan, cases=[dict(case, probes=pr)])
         for g in (1, 2):
             if plan['gens'] > g and fails(dict(plan, gens=g)) is not None:
                 plan = dict(plan, gens=g)
                 break
+        if plan['standalone'] and 'standalone' not in violation['kind'] and fails(dict(plan, standalone=False)) is not None:
+            plan = dict(plan, standalone=False)
         return plan, []
 
     def signature(self, plan, violation):
-        return '%s:%s' % (violation['kind'], violation['detail'].get('config', '?').split('/')[0])
+        return '%s:%s' % (violation['kind'], violation['detail'].get('config', '?').split('/')[0].rstrip('0123456789'))
 
 
 CHECK = C11()
